@@ -56,6 +56,20 @@ def after(text, label, until=None):
     return rest
 
 
+def idle(v, nested=True):
+    """MACH_IDLE window (the outcome is in its END record) around a complete interrupt taken while idle"""
+    tid = 5
+    evs = [EV.E(tid, 'MACH_IDLE', 1, args=[1, 4, 0, (~v) & 0xffffffff])]
+    if nested:
+        evs += [EV.E(tid, 'INTERRUPT', 1, args=[9, 9, 9, (~v) & 0x3ff]), EV.E(tid, 'INTERRUPT', 2, args=[9, 9, 9, (v ^ 0x155) & 0xffff])]
+    evs.append(EV.E(tid, 'MACH_IDLE', 2, args=[1, 6, 3, v]))
+    p = EV.new_traces_parser()
+    out = [t for t in p.feed_generator(EV.realize(evs)) if t.ktraces[0].eventid == EV.eid('MACH_IDLE')]
+    if len(out) != 1:
+        raise Violation('trace-count', f'MACH_IDLE: {len(out)} traces')
+    return text_of('MACH_IDLE', out[0])
+
+
 Z4 = [0, 0, 0, 0]
 # family -> (observer(value) -> names, single-bit table {value: name}, fields [(mask, {value: name})], zero name or None)
 FAMILIES = {
@@ -77,6 +91,7 @@ FAMILIES = {
             {v: n for v, n in D.AST.items() if v}, [], 'AST_NONE'),
     'ast-dispatch': (lambda v: names_of(after(single('MACH_DISPATCH', [1, v, 0, 4]), 'reason: ', ', state:')),
                      {v: n for v, n in D.AST.items() if v}, [], 'AST_NONE'),
+    'ast-idle': (lambda v: names_of(after(idle(v), 'reason: ', ', state:')), {v: n for v, n in D.AST.items() if v}, [], 'AST_NONE'),
     'thstate': (lambda v: names_of(after(single('MACH_DISPATCH', [1, 0, v, 4]), 'state: ')), D.TH_STATE, [], None),
     'kperfti': (lambda v: names_of(after(single('PERF_THD_Data', [1, 2, 3, v]), 'runmode: ')), D.KPERF_TI, [], None),
     'callstack': (lambda v: names_of(after(single('PERF_STK_UHdr', [v, 2, 3, 4]), 'flags: ', ', frames count')), D.CALLSTACK, [], None),
@@ -95,6 +110,7 @@ NEIGHBOURS = {
     'thstate': [lambda v: names_of(after(single('MACH_DISPATCH', [7, 0xffff, v, 0]), 'state: '))],
     'ast-dispatch': [lambda v: names_of(after(single('MACH_DISPATCH', [7, v, 0xff, 9]), 'reason: ', ', state:'))],
     'callstack': [lambda v: names_of(after(single('PERF_STK_UHdr', [v, 500, 0, 0]), 'flags: ', ', frames count'))],
+    'ast-idle': [lambda v: names_of(after(idle(v, nested=False), 'reason: ', ', state:'))],
 }
 
 
@@ -293,6 +309,7 @@ def run(ctx):
     add('ast', sparse_words(D.AST, 32, ctx.seed + 1))
     add('ast', (1 << i for i in range(22, 64)))
     add('ast-dispatch', sparse_words(D.AST, 24, ctx.seed + 2))
+    add('ast-idle', sparse_words(D.AST, 24, ctx.seed + 3))
     add('thstate', range(256))
     add('thstate', (v << 8 | w for v in (1, 0x80, 0xff) for w in (0, 1, 0x81)))
     add('kperfti', range(0, 65536, 37 if q else 1))
